@@ -114,6 +114,27 @@ func init() {
 			x.DefBool("found"+fn, fd != nil)
 		}
 		x.Raw("def sinks : List (String × String × List String) := [\n" + strings.Join(items, ",\n") + "]")
+		// what `p` in the guard `p.Check()` is: (function, name of its request parameter, the statement defining p)
+		var subj []string
+		for _, fn := range []string{"Execute", "Query", "Request"} {
+			fd := x.Func("store", "Store", fn)
+			if fd == nil || fd.Type.Params == nil || len(fd.Type.Params.List) < 2 || len(fd.Type.Params.List[1].Names) != 1 {
+				continue
+			}
+			param := fd.Type.Params.List[1].Names[0].Name
+			def, n := "", 0
+			for _, st := range fd.Body.List {
+				if as, ok := st.(*ast.AssignStmt); ok && len(as.Lhs) == 1 && x.Src(as.Lhs[0]) == "p" {
+					def = x.Src(as)
+					n++
+				}
+			}
+			if n != 1 {
+				def = fmt.Sprintf("%d definitions of p", n)
+			}
+			subj = append(subj, fmt.Sprintf("  (%s, %s, %s)", LeanStr(fn), LeanStr(param), LeanStr(def)))
+		}
+		x.Raw("def pragmaCheckSubject : List (String × String × String) := [\n" + strings.Join(subj, ",\n") + "]")
 		// the helper s.execute: its own sinks (it must not touch the database before Apply)
 		var ex []string
 		if fd := x.Func("store", "Store", "execute"); fd != nil {
